@@ -12,7 +12,8 @@ AttemptOK(o, a) ==
 Conforms(o) ==
   /\ o.out.setup_ok
   /\ IF o.kind = "impostor"
-     THEN ~o.out.first_use_ok                                \* the host refuses a plugin that serves with another certificate
+     THEN /\ o.impostor \in ImpostorModes                      \* the host refuses a plugin that serves with another certificate or none
+          /\ o.out.first_use_ok = HostUses(Announced(o.impostor), Presented(o.impostor))
      ELSE /\ Len(o.out.attempts) >= 1
           /\ \A k \in 1..Len(o.out.attempts) : AttemptOK(o, o.out.attempts[k])
           /\ o.out.legit_ok_before /\ o.out.legit_ok_after   \* the legitimate pair works, before and after the intrusions
